@@ -230,6 +230,11 @@ func (proof *RangeProof) _computeRootHash() (rootHash []byte, treeEnd bool, err 
 			if len(pin.Left) > 0 && len(pin.Right) > 0 {
 				return nil, false, errors.Wrap(ErrInvalidProof, "both left and right child hashes are set")
 			}
+			// A leaf hashes like an inner node of height 0 and size 1 whose left hash is the key:
+			// only real inner nodes may stand on a path.
+			if pin.Height < 1 || pin.Size < 2 {
+				return nil, false, errors.Wrap(ErrInvalidProof, "path node is not an inner node")
+			}
 		}
 	}
 
